@@ -1064,10 +1064,90 @@ theorem claimInv_kill (g : G) (p : Pid) (h : MapInv g) : ClaimInv (g.kill p) := 
             · exact hx.1.symm
           rw [this]; exact e
 
+/-! ### a scripted failure of the next system call (`G.fail`): no mapping changes, claims only shrink -/
+
+theorem call_claim_after_err (p : Pid) (c c' : Call) (e : Errno) (hwf : ∀ hid st, c = .shmNew hid st → st.wf)
+    (h : c.after (.err e) = .cont c') : c'.claim p = c.claim p ∨ c'.claim p = none := by
+  cases c with
+  | shmNew hid st =>
+    obtain ⟨st', rfl, ha⟩ := call_after_cont_shmNew hid st _ _ h
+    by_cases hm : ∃ fd, st.pc = .mmap fd
+    · obtain ⟨fd, hpc⟩ := hm
+      obtain ⟨key, req, ro, created, isExists, size, addr, pc⟩ := st
+      simp only at hpc; subst hpc
+      simp only [ShmNewSt.after, Out.cont.injEq] at ha
+      subst ha
+      left; simp [Call.claim]
+    · exact shmNew_claim_cont p hid st st' _ (hwf hid st rfl) (fun fd hpc => hm ⟨fd, hpc⟩) ha
+  | shmFree st =>
+    right
+    obtain ⟨hd, pc⟩ := st
+    simp only [Call.after] at h
+    split at h <;> simp only [Out.cont.injEq, reduceCtorEq] at h
+    rename_i st' hs
+    subst h
+    cases pc <;> simp only [ShmFreeSt.after] at hs <;> (repeat' split at hs) <;>
+      simp only [Out.cont.injEq, reduceCtorEq] at hs <;> subst hs <;> rfl
+  | semNew hid s =>
+    right; simp only [Call.after] at h; split at h <;> simp only [Out.cont.injEq, reduceCtorEq] at h; subst h; rfl
+  | semFree s =>
+    right; simp only [Call.after] at h; split at h <;> simp only [Out.cont.injEq, reduceCtorEq] at h; subst h; rfl
+  | acquire x =>
+    right; simp only [Call.after] at h; split at h <;> simp only [Out.cont.injEq, reduceCtorEq] at h; subst h; rfl
+  | release x =>
+    right; simp only [Call.after] at h; split at h <;> simp only [Out.cont.injEq, reduceCtorEq] at h; subst h; rfl
+
+theorem claimInv_fail (g : G) (t : Tid) (e : Errno) (h : MapInv g) : ClaimInv (g.fail t e) := by
+  cases hc : g.calls t with
+  | none => rw [fail_none g t e hc]; exact h.claims
+  | some c =>
+    refine h.claims.shrink ?_ ?_
+    · intro p; rw [fail_os]; exact ⟨rfl, rfl⟩
+    · intro cl x hx
+      cases cl with
+      | inl h' => simp only [claimOf, hClaim, fail_hs] at hx ⊢; exact hx
+      | inr t' =>
+        by_cases e' : t' = t
+        · subst e'
+          simp only [claimOf, tClaim, fail_calls_self g t' e c hc, fail_pidOf] at hx
+          simp only [claimOf, tClaim, hc]
+          cases ha : c.after (.err e) with
+          | cont c' =>
+            simp only [ha] at hx
+            rcases call_claim_after_err (g.pidOf t') c c' e (fun hid st ec => h.newwf t' hid st (by rw [hc, ec])) ha with e1 | e1
+            · rw [← e1]; exact hx
+            · rw [e1] at hx; cases hx
+          | done r => simp only [ha] at hx; cases hx
+        · simp only [claimOf, tClaim, fail_calls_other g t e t' e', fail_pidOf] at hx ⊢; exact hx
+
+theorem fail_newwf (g : G) (t : Tid) (e : Errno) (h : ∀ t hid st, g.calls t = some (.shmNew hid st) → st.wf) :
+    ∀ t' hid st, (g.fail t e).calls t' = some (.shmNew hid st) → st.wf := by
+  intro t' hid st hc'
+  by_cases e' : t' = t
+  · subst e'
+    cases hc : g.calls t' with
+    | none => rw [fail_none g t' e hc] at hc'; rw [hc] at hc'; cases hc'
+    | some c =>
+      rw [fail_calls_self g t' e c hc] at hc'
+      split at hc'
+      · rename_i c' hcont
+        simp only [Option.some.injEq] at hc'
+        subst hc'
+        cases c with
+        | shmNew hid0 st0 =>
+          obtain ⟨st', e'', ha⟩ := call_after_cont_shmNew hid0 st0 _ _ hcont
+          simp only [Call.shmNew.injEq] at e''
+          obtain ⟨_, rfl⟩ := e''
+          exact ShmNewSt.wf_after st0 st _ (h t' hid0 st0 hc) ha
+        | _ => exact absurd rfl (call_after_cont_not_shmNew _ _ _ hcont (by intro a b; simp) hid st)
+      · cases hc'
+  · rw [fail_calls_other g t e t' e'] at hc'; exact h t' hid st hc'
+
 theorem mapInv_exec (g : G) (a : Action) (h : MapInv g) : MapInv (exec g a) := by
   cases a with
   | start t op => exact ⟨claimInv_start g t op h, start_newwf g t op h.newwf⟩
   | step t i => exact ⟨claimInv_step g t i h, step_newwf g t i h.newwf⟩
+  | fail t e => exact ⟨claimInv_fail g t e h, fail_newwf g t e h.newwf⟩
   | kill p =>
     refine ⟨claimInv_kill g p h, ?_⟩
     intro t hid st hc
